@@ -144,7 +144,7 @@ def check_compile(cx):
       bad('%s: group %d, XML %d' % (nm, m.actuator_group[i], s['group']))
     if bool(m.actuator_actearly[i]) != s['actearly'] and s['kind'] != 'dcmotor':
       bad('%s: actearly %d' % (nm, m.actuator_actearly[i]))
-    if s['oracle'] == 'force' or s['kind'] == 'pid':
+    if (s['oracle'] == 'force' or s['kind'] == 'pid') and s['kind'] != 'dcmotor':   # dcmotor prm layout: tech note
       for f, n in (('gainprm', 9 if s['gain'] == 'muscle' else 3 if s['gain'] == 'affine' else 1),
                    ('biasprm', 9 if s['bias'] == 'muscle' else 3 if s['bias'] in ('affine', 'so3') else 0),
                    ('dynprm', 3 if s['dyn'] == 'muscle' else 1 if s['dyn'] in ('filter', 'filterexact') or (
@@ -504,6 +504,14 @@ def expected_actuator(cx, i, s, u, act, clamp_note):
     out.update(force=[fc], scale=sc)
     return out
 
+  if gt == 'dcmotor':
+    # stateless voltage input: i = (V - K w)/R algebraically, torque = K i  ("drives the voltage v = (R/K) tau + K ldot
+    # ... commanded torque is delivered exactly" <=> tau = K/R (v - K ldot)); R, K as written in the XML
+    R, K = s['R'], s['K']
+    f = K / R * (float(u[0]) - K * V)
+    out.update(force=[np.array([f])], scale=abs(K / R) * (abs(float(u[0])) + abs(K * V)) + 1e-3)
+    return out
+
   if gt == 'pid':
     toks = s['inputs']
     vals = dict(zip(toks, u))
@@ -857,9 +865,13 @@ def check_step(cx, variant):
       continue
     if s['dyn'] in ('integrator', 'filter', 'filterexact', 'muscle') and bool(m.actuator_actlimited[i]):
       r = np.array(m.actuator_actrange[i])
+      if not (r[0] <= act1[a] <= r[1]) and period > 0 and s['dyn'] == 'integrator':
+        finding(cx, 'C27-actrange-broken-by-circle-reanchor',
+                '[%s] %s: actlimited with actrange %s, yet act=%r after mj_step (before %r): the re-anchoring of '
+                'rotational setpoints to the representative nearest the length is applied after the actrange clamp and '
+                'moves the activation out of actrange' % (tag, nm, r.tolist(), float(act1[a]), float(act0[a])))
+        continue
       if not (r[0] <= act1[a] <= r[1]):
-        if period > 0:
-          cx.labels.add('actrange-vs-circle-reanchor')
         raise Violation('[%s] %s: act=%r after mj_step outside actrange %s (act before %r, ctrl %s)' % (
             tag, nm, float(act1[a]), r.tolist(), float(act0[a]), np.array(d.ctrl).tolist()), bucket='actrange')
     if exn is not None and exn[0] == 'value' and not rk4:
@@ -1055,6 +1067,100 @@ def main(ck):
   ck.extra['tolerances'] = dict(K_FORCE=K_FORCE, K_LEN=K_LEN, K_MOM=K_MOM, K_FD=K_FD, FD_H=FD_H, K_QFRC=K_QFRC)
 
 
+PROBE_TREE = ('<mujoco><worldbody><site name="s0" pos="0.1 0.2 0.3" euler="10 20 30"/>'
+              '<body name="b1" pos="0 0 1"><joint name="j1" type="ball"/><geom size="0.1"/>'
+              '<site name="s1" pos="0.1 0 0" euler="40 -20 70"/>'
+              '<body name="b2" pos="0.3 0 0"><joint name="j2" type="hinge" axis="0 1 0"/><geom size="0.1"/>'
+              '<site name="s2" pos="0.1 0 0.1" euler="-30 50 15"/></body></body></worldbody>%s</mujoco>')
+
+
+def regressions(ck):
+  """one deterministic probe per recorded finding (fingerprints listed in /verif/known_findings.json print
+  KNOWN-FINDING; once the defect is repaired the probe finds nothing and stays silent)."""
+  lib = ck.lib('rel')
+  E = lib.enums
+  quiet = bool(os.environ.get('C27_SUPPRESS_FINDINGS'))
+
+  def report(fp, msg, xml):
+    if not quiet:
+      ck.violation(msg, dict(xml=xml), bucket=fp, fingerprint=fp)
+    ck.label('probe-finding:' + fp)
+  # 1. slider-crank after a 3-output actuator: rod length must be this actuator's cranklength
+  xml = PROBE_TREE % ('<actuator><orientation name="o" joint="j1" kp="2"/>'
+                      '<general name="c" cranksite="s2" slidersite="s1" cranklength="0.5"/></actuator>')
+  m = lib.model_from_xml(xml)
+  d = lib.make_data(m)
+  d.qpos[4] = 0.3
+  lib.mj_forward(m, d)
+  o = int(m.actuator_outadr[1])
+  cid, sid = lib.mj_name2id(m, E.mjOBJ_SITE, 's2'), lib.mj_name2id(m, E.mjOBJ_SITE, 's1')
+  ax = np.array(d.site_xmat[sid]).reshape(3, 3)[:, 2]
+  res = A.slidercrank_residual(float(d.actuator_length[o]), d.site_xpos[cid], d.site_xpos[sid], ax, 0.5)
+  if A.slidercrank_det(d.site_xpos[cid], d.site_xpos[sid], ax, 0.5) > 1e-3 and res > 1e-9:
+    report('C27-slidercrank-cranklength-indexed-by-output',
+           'slider-crank (actuator 1, output %d, cranklength 0.5) after an <orientation> actuator: length %r leaves the '
+           'connecting rod %.3g too long/short: mj_transmission reads actuator_cranklength[outadr] (array is '
+           'nactuator x 1) instead of [actuator id]' % (o, float(d.actuator_length[o]), res), xml)
+  ck.case(nontrivial=True, key='probe1', labels=['probe:slidercrank-after-orientation'])
+  # 2. tendon actuatorfrcrange with the default actuatorfrclimited="auto"
+  xml = PROBE_TREE % ('<tendon><fixed name="t0" actuatorfrcrange="-1 2"><joint joint="j2" coef="2"/></fixed></tendon>'
+                      '<actuator><motor name="a" tendon="t0"/></actuator>')
+  m = lib.model_from_xml(xml)
+  d = lib.make_data(m)
+  d.ctrl[0] = 10.0
+  lib.mj_forward(m, d)
+  tot = float(d.actuator_force[0])
+  if not m.tendon_actfrclimited[0] or abs(tot - 2.0) > 1e-12:
+    report('C27-tendon-actuatorfrclimited-auto-ignored',
+           'tendon actuatorfrcrange="-1 2" with actuatorfrclimited at its documented default "auto": '
+           'tendon_actfrclimited=%d and a motor with ctrl=10 applies %r to the tendon (documented: clamped to 2); '
+           'mjs_defaultTendon leaves actfrclimited at 0 (false) instead of mjLIMITED_AUTO' % (
+               m.tendon_actfrclimited[0], tot), xml)
+  ck.case(nontrivial=True, key='probe2', labels=['probe:tendon-actfrcrange-auto'])
+  # 3. rotational length of site+refsite with locally rotated sites
+  xml = PROBE_TREE % '<actuator><position name="a" site="s2" refsite="s0" gear="0 0 0 0 0 1" kp="1"/></actuator>'
+  m = lib.model_from_xml(xml)
+  d = lib.make_data(m)
+  d.qpos[:4] = A.qexp([0.3, -0.2, 0.5])
+  d.qpos[4] = 0.4
+  lib.mj_forward(m, d)
+  sid, rid = lib.mj_name2id(m, E.mjOBJ_SITE, 's2'), lib.mj_name2id(m, E.mjOBJ_SITE, 's0')
+  rv = A.qlog(A.qmul(A.qconj(site_quat(d, rid)), site_quat(d, sid)))
+  if abs(float(d.actuator_length[0]) - rv[2]) > 1e-9:
+    report('C27-refsite-rotation-quat-order',
+           'site+refsite, gear="0 0 0 0 0 1" ("Z-rotation of site in the refsite frame"): actuator_length=%r, rotation '
+           'vector of q_refsite^-1 q_site from site_xmat has z=%r; mj_transmission composes the site orientation as '
+           'site_quat*xquat instead of xquat*site_quat' % (float(d.actuator_length[0]), float(rv[2])), xml)
+  ck.case(nontrivial=True, key='probe3', labels=['probe:refsite-rotation'])
+  # 4. pid with integral action and slew limiting
+  xml = PROBE_TREE % '<actuator><pid name="a" joint="j2" kp="2" ki="1" slewmax="1"/></actuator>'
+  try:
+    m = lib.model_from_xml(xml)
+    if int(m.actuator_actnum[0]) != 2:
+      raise Violation('pid with ki and slewmax has %d activation states, documented 2 ([slew, integral])' % m.actuator_actnum[0],
+                      bucket='compile')
+  except Violation:
+    raise
+  except Exception as e:
+    report('C27-pid-ki-plus-slewmax-compile-error',
+           '<pid ki="1" slewmax="1"> ("Each of these features, when enabled, adds one activation state, in the order '
+           '[slew, integral]") does not compile: %s' % str(e)[:160], xml)
+  ck.case(nontrivial=True, key='probe4', labels=['probe:pid-ki+slewmax'])
+  # 5. actrange of an integrated-velocity servo on a ball joint
+  xml = PROBE_TREE % '<actuator><intvelocity name="a" joint="j1" gear="1 0 0" kp="1" actrange="-1 1"/></actuator>'
+  m = lib.model_from_xml(xml)
+  d = lib.make_data(m)
+  d.qpos[:4] = A.qexp([-3.0, 0, 0])
+  d.act[0] = 1.0
+  lib.mj_step(m, d)
+  if not -1.0 <= float(d.act[0]) <= 1.0:
+    report('C27-actrange-broken-by-circle-reanchor',
+           '<intvelocity joint=ball gear="1 0 0" actrange="-1 1">, joint at -3 rad about x, act=1, ctrl=0: after mj_step '
+           'act=%r, outside actrange ("the internal state (activation) ... is automatically clamped to actrange"): the '
+           'circle re-anchoring in mj_advance runs after the clamp' % float(d.act[0]), xml)
+  ck.case(nontrivial=True, key='probe5', labels=['probe:actrange-on-circle'])
+
+
 def replay(ck, body):
   """./verif C27 --replay <violation file>: re-runs the recorded (model, state seed) case outside Hypothesis."""
   lib = ck.lib('rel')
@@ -1070,5 +1176,31 @@ def replay(ck, body):
 LEVEL = 'exploration'
 TECHNIQUE = ('property-based testing (Hypothesis): generated models x actuator programs x states against a reference '
              'model of the documented actuator laws, finite-difference moment-arm oracle, metamorphic option toggles')
-LEVEL_TEXT = '''todo'''
-LEVEL_NOTE = '''todo'''
+LEVEL_TEXT = '''Generated trees x generated actuator blocks x states (ctrl/act inside, on and up to 100 ranges outside their
+limits), each evaluated under five runtime option variants. Checked against the documented laws (vf/oracle/act.py):
+ctrl clamping (ctrlrange/ctrllimited/clampctrl), act_dot for integrator/filter/filterexact/muscle, actearly (next
+activation), gain fixed/affine/muscle, bias none/affine/muscle, forcerange, tendon and joint actuatorfrcrange, actuator
+gravcomp, qfrc_actuator = moment^T force, group disable (zero force, activation not integrated), actuation flag, act after
+mj_step (Euler/implicit/implicitfast: documented integration; all integrators: inside actrange); shortcut tables
+(motor, position, velocity, intvelocity, damper, cylinder, muscle, adhesion, pid, orientation, stateless dcmotor) and
+the limited/auto flag semantics against the compiled model. Transmission: lengths from their documented definitions,
+actuator_moment against central finite differences of actuator_length (hinge/slide joints, fixed+spatial tendons,
+slider-crank, site+static refsite with translational gear) or the documented wrench formulas (ball/free joint in
+child/parent frame, site, site+refsite, SO3, body = -mean contact-normal Jacobian), velocity = moment.qvel. Sampled;
+five fixed probes reproduce the recorded findings.'''
+LEVEL_NOTE = '''Force-law oracle: general gain fixed/affine x bias none/affine x dyn none/integrator/filter/filterexact, motor, position
+(+timeconst), velocity, intvelocity, damper, cylinder, muscle/general-muscle (FL in (lmin,0.95) and FP for L>1 against the
+tree's MJX reference because doc/_static/FLV.m is stale there; act_dot only for act in [0,1]), adhesion, pid without
+slewmax (incl. ki/imax integral state), orientation (expmap and quat chart, norm clamp), dcmotor without inductance
+(torque = K/R (V - K ldot)). Invariants only (forcerange bound, moment arms, velocity, qfrc = moment^T force, tendon/joint
+clamps): dcmotor with inductance, pid with slewmax. Circle semantics of servo setpoints on ball / rotational refsite
+transmissions is required for the position (no filter) and intvelocity shortcuts, and either reading is accepted for
+servo-shaped general actuators, filtered position and pid (documentation silent). Not asserted: distribution of a
+tendon-level clamp among several actuators (only the total and sign/magnitude monotonicity), combination of tendon clamp
+and forcerange (order undocumented), tendon actuatorfrcrange with gear != 1 (generator keeps gear 1 there), RK4 activation
+integration (only the actrange invariant), ctrl delay/history, user/plugin types, dampratio/inheritrange, sleeping.
+Tolerances: |a-b| <= K*scale with scale = sum of the absolute values of the terms of the compared expression; K_FORCE =
+K_QFRC = K_LEN = 1e-11, K_MOM = 1e-10 (worst observed ratio over seeds 1-3 and one thorough run: see
+worst_error_over_scale in the evidence, all <= 2e-14, i.e. >= 100x margin), K_FD = 2e-6 for central differences with
+h = 1e-6 (worst observed 3e-9). Trusted: engine kinematics used by the oracle (site frames, ten_length, mj_jac*, contact
+frames, qfrc_gravcomp), the verification build, clang record layouts.'''
